@@ -49,8 +49,19 @@ def strategy(draw, tier="quick"):
             )
         )
         evs.append({"off_ms": off_ms, "dur_us": dur})
+    mods = []
+    longest = max(e["dur_us"] for e in evs)
+    for _ in range(draw(st.sampled_from([0, 0, 1, 2, 4]))):
+        kind = draw(st.sampled_from(["replace", "replace", "replace_last", "delete", "insert", "upsert", "upsert"]))
+        # the re-timed event may become the longest the bucket has ever held
+        dur = draw(st.sampled_from([0, 1000, 10**6, 5 * 10**6, 50 * 10**6, min(DAY, longest + 2000), min(DAY, longest + 5 * 10**6), min(DAY, 2 * longest + 10**6)]))
+        mods.append({"op": kind, "k": draw(st.integers(0, 20)), "off_ms": draw(st.one_of(st.integers(0, 20), st.integers(0, 100_000))), "dur_us": dur})
+        longest = max(longest, dur)
     wins = []
-    edges = sorted({e["off_ms"] * 1000 for e in evs} | {e["off_ms"] * 1000 + e["dur_us"] for e in evs})  # incl. the far ends of hour- and day-long events
+    edges = sorted(
+        {e["off_ms"] * 1000 for e in evs} | {e["off_ms"] * 1000 + e["dur_us"] for e in evs}  # incl. the far ends of hour- and day-long events
+        | {m["off_ms"] * 1000 + m["dur_us"] for m in mods} | {m["off_ms"] * 1000 for m in mods}  # and of what the history turns them into
+    )
     for _ in range(draw(st.integers(1, 5))):
         smode = draw(st.integers(0, 4))
         if smode == 0:
@@ -71,10 +82,6 @@ def strategy(draw, tier="quick"):
         else:
             ln = draw(st.integers(0, 60 * 10**6))
         wins.append({"s": s, "len": ln, "end_abs": draw(st.integers(-5 * 10**6, 105 * 10**6)), "tz": draw(gen.offsets()), "tz2": draw(gen.offsets())})
-    mods = []
-    for _ in range(draw(st.sampled_from([0, 0, 1, 2, 4]))):
-        kind = draw(st.sampled_from(["replace", "replace", "replace_last", "delete", "insert", "upsert", "upsert"]))
-        mods.append({"op": kind, "k": draw(st.integers(0, 20)), "off_ms": draw(st.one_of(st.integers(0, 20), st.integers(0, 100_000))), "dur_us": draw(st.sampled_from([0, 1000, 10**6, 5 * 10**6, 50 * 10**6]))})
     return {"backend": draw(st.sampled_from(stores.BACKENDS)), "base": base, "events": evs, "mods": mods, "early_read": draw(st.booleans()), "pre": draw(st.integers(0, 2)), "first_read_limit1": draw(st.booleans()), "windows": wins, "limits": draw(st.lists(st.sampled_from([-7, -1, 0, 1, 2, 3, 100]), min_size=1, max_size=3, unique=True))}
 
 
